@@ -81,6 +81,10 @@ type Knobs struct {
 	// PGpuSpread > 0 replaces the generic choice of the GPU placement strategy: spread (plugin gpuspread: whole devices
 	// are preferred to shared ones) with this probability, binpack otherwise
 	PGpuSpread float64
+	// PNodeGone: one node object that holds pods of generated workloads is missing from the API state (the node was
+	// deleted, its pods are not garbage-collected yet): those pods are Running on a node the session does not know.
+	// Drawn after everything else; 0 = no extra draws
+	PNodeGone float64
 }
 
 var allActions = "allocate, consolidation, reclaim, preempt, stalegangeviction"
@@ -146,6 +150,7 @@ func Profile(name string) Knobs {
 		k.PGang, k.GangMax, k.PSubGroups, k.PElastic = 0.8, 6, 0.4, 0.4
 		k.PStaleGang = 0.12
 		k.PEarlyRecreate = 0.35
+		k.PNodeGone = 0.1
 		k.Fill, k.PTerminating = 0.5, 0.35
 		k.PFaults = 0
 		k.KindWeights = map[string]int{"cpu": 2, "whole": 6, "fraction": 2, "gpumem": 1}
@@ -217,6 +222,7 @@ func Profile(name string) Knobs {
 		k.NoEvictCallFaults = true
 		k.PTopology = 0.1
 		k.PDRA = draAccounting // DRA (dra.go)
+		k.PNodeGone = 0.08
 	case "mixed":
 	}
 	return k
@@ -319,8 +325,49 @@ func GenerateWith(k Knobs, profile string, seed int64, index int, tier string) *
 	}
 	g.staleGangs()
 	LabelForNodePool(g.c)
-	g.genDRA() // DRA (dra.go): last drawing step; draws nothing when PDRA == 0
+	g.genDRA() // DRA (dra.go): draws nothing when PDRA == 0
+	g.nodeGone()
 	return g.c
+}
+
+// nodeGone removes the object of one node that runs generated pods (see Knobs.PNodeGone). Nodes with reservation pods,
+// DRA slices or binding pods are left alone: only plainly running pods stay behind on the deleted node.
+func (g *G) nodeGone() {
+	if g.k.PNodeGone <= 0 || !g.p(g.k.PNodeGone) || len(g.c.Objects.Nodes) < 2 {
+		return
+	}
+	var cand []int
+	for i, n := range g.c.Objects.Nodes {
+		pods, plain := 0, true
+		for _, p := range g.c.Objects.Pods {
+			if p.Spec.NodeName != n.Name {
+				continue
+			}
+			pods++
+			if p.Namespace != "ns" || p.Status.Phase != v1.PodRunning || p.Annotations["received-resource-type"] != "Regular" || len(p.Spec.ResourceClaims) > 0 {
+				plain = false
+			}
+		}
+		for _, br := range g.c.Objects.BindRequests {
+			if br.Spec.SelectedNode == n.Name {
+				plain = false
+			}
+		}
+		for _, sl := range g.c.Objects.ResourceSlices {
+			if sl.Spec.NodeName != nil && *sl.Spec.NodeName == n.Name {
+				plain = false
+			}
+		}
+		if pods > 0 && plain {
+			cand = append(cand, i)
+		}
+	}
+	if len(cand) == 0 {
+		return
+	}
+	i := cand[g.r.IntN(len(cand))]
+	g.c.Meta["node_gone"] = g.c.Objects.Nodes[i].Name
+	g.c.Objects.Nodes = append(g.c.Objects.Nodes[:i:i], g.c.Objects.Nodes[i+1:]...)
 }
 
 // staleGangs turns some running workloads into stale gangs: fewer active pods than the minimum for longer than the
